@@ -141,15 +141,24 @@ theorem canonical_step_is_transposition (s : CO) (p a b : Nat) (ha : a < p) (hb 
            (conjSwap s a b).orthogonal.get i j = s.orthogonal.get i (tr a b j) :=
   conjSwap_entries s p a b ha hb hC hO
 
-/-- Full statement (open, oracle only): for every real Schur form `(T, Z)` of an antisymmetric `2n × 2n`
-matrix the four passes return `C = [[0, D], [-D, 0]]`, `D ≥ 0` ascending, and `A = Rᵀ C R`.
-Proved part: after passes 1–3 (block alignment, moving the blocks to the off-diagonal quadrants, sign
-fixing), whatever the tests `isclose(·, 0)` / `< 0` decide, `canonical` and `orthogonal` are the Schur pair
-reindexed by ONE permutation `π` (with inverse): `C'[i,j] = T[π i, π j]`, `O'[i,j] = Z[i, π j]`. -/
-theorem canonical_passes123_permutation_partial (atol : Rat) (n : Nat) (T Z : RMat)
+/-- All four passes of `antisymmetric_canonical_form` (block alignment, moving the blocks to the
+off-diagonal quadrants, sign fixing, insertion sort of the diagonal) applied to ANY Schur pair `(T, Z)` of
+size `2n`, whatever the tests `isclose(·, 0)`, `< 0` and `argmin` decide: the returned `canonical` and
+`orthogonal` (before the final transposition) are the Schur pair reindexed by ONE permutation `π` (given
+with its inverse): `C'[i,j] = T[π i, π j]`, `O'[i,j] = Z[i, π j]`, shapes kept.  Consequently
+`O' C' O'ᵀ = Z T Zᵀ = A` (reindexing of the double sum by the bijection `π`), i.e. `A = Rᵀ C R` with
+`R = O'ᵀ` is an invariant of the passes.
+Still open (oracle only): the final SHAPE `C = [[0, D], [-D, 0]]`, `D ≥ 0` ascending, which depends on the
+alignment of the 2×2 blocks of the real Schur form. -/
+theorem canonical_passes_permutation (atol : Rat) (n : Nat) (T Z : RMat)
     (hT : Square T (2 * n)) (hZ : Square Z (2 * n)) :
-    Reindexed ⟨T, Z⟩
-      (pass3 n (pass2 n (pass1 atol ⟨T, Z⟩ (oddRange (2 * n - 1))) (oddRange n)) (List.range n)) (2 * n) := by
+    let s3 := pass3 n (pass2 n (pass1 atol ⟨T, Z⟩ (oddRange (2 * n - 1))) (oddRange n)) (List.range n)
+    let diag := (List.range n).map fun i => s3.canonical.get i (n + i)
+    Reindexed ⟨T, Z⟩ (pass4 n s3 diag (List.range n)) (2 * n) ∧
+    (canonicalPasses atol n T Z).1 = (pass4 n s3 diag (List.range n)).canonical := by
+  intro s3 diag
+  refine ⟨?_, rfl⟩
+  apply pass4_reindexed n _ _ _ _ (fun i hi => List.mem_range.mp hi) (by simp [diag])
   apply pass3_reindexed n _ _ _ (fun i hi => List.mem_range.mp hi)
   apply pass2_reindexed n _ _ _ (fun i hi => mem_oddRange n i hi)
   apply pass1_reindexed atol (2 * n) _ _ _ (fun i hi => by have := mem_oddRange _ i hi; omega)
